@@ -186,13 +186,14 @@ def random_history(rng, has_en, n, length):
 
 # ----------------------------------------------------------------------------- evaluation
 
-def evaluate(ck, has_en, n, hist, model, impl, tag, ctx=None):
+def evaluate(ck, has_en, n, hist, model, impl, tag, ctx=None, wrapped=None):
   """oracle on the implementation first, then model vs implementation; returns (#violations, #disagreements)"""
   orc = Oracle(has_en, n)
   nv = nd = 0
   def case(t):
     c = {'hasEn': has_en, 'n': n, 'hist': hist[:t + 1]}
     if ctx: c['many'] = ctx
+    if wrapped: c['wrapped'] = wrapped
     return c
   for t, ((r, e, q), row) in enumerate(zip(hist, impl)):
     prio, g, pe, nxt = row[:4]
@@ -286,24 +287,69 @@ class C19GrantMux( Component ):
         if s.sel[i]:
           s.out @= s.in_[i]
 
+class C19GrantMonitor( Component ):
+  # an arbiter inside a component that keeps wrap[0] (0..3) bookkeeping registers of its own; wrap[1:] = further
+  # levels of the same wrapping around the arbiter.  (One block name per register count: pymtl3 caches update
+  # block metadata per class and block name.)
+  def construct( s, has_en, n, wrap ):
+    Type = mk_bits( n )
+    s.reqs   = InPort ( Type )
+    s.en     = InPort ()
+    s.grants = OutPort( Type )
+    s.last_grants = OutPort( Type )
+    s.num_grants  = OutPort( 16 )
+    s.last_reqs   = OutPort( Type )
+    if len( wrap ) > 1: s.arb = C19GrantMonitor( has_en, n, wrap[1:] )
+    else:               s.arb = ( RoundRobinArbiterEn if has_en else RoundRobinArbiter )( n )
+    s.arb.reqs   //= s.reqs
+    s.arb.grants //= s.grants
+    if has_en or len( wrap ) > 1: s.arb.en //= s.en
+    nregs = wrap[0]
+    if nregs == 1:
+      @update_ff
+      def up_monitor_1():
+        if s.reset: s.last_grants <<= 0
+        elif s.grants != 0: s.last_grants <<= s.grants
+    elif nregs == 2:
+      @update_ff
+      def up_monitor_2():
+        if s.reset:
+          s.last_grants <<= 0
+          s.num_grants  <<= 0
+        elif s.grants != 0:
+          s.last_grants <<= s.grants
+          s.num_grants  <<= s.num_grants + 1
+    elif nregs == 3:
+      @update_ff
+      def up_monitor_3():
+        s.last_reqs <<= s.reqs
+        if s.reset:
+          s.last_grants <<= 0
+          s.num_grants  <<= 0
+        elif s.grants != 0:
+          s.last_grants <<= s.grants
+          s.num_grants  <<= s.num_grants + 1
+
 class C19ManyArbTop( Component ):
-  # spec: list of (has_en, nreqs, with_mux); one arbiter per entry, own reqs/en/grants ports
+  # spec: list of (has_en, nreqs, with_mux, wrap); one arbiter per entry (inside C19GrantMonitor wrappers when wrap
+  # is a non-empty list of register counts), own reqs/en/grants ports
   def construct( s, spec ):
-    maxn = max( n for _, n, _ in spec )
-    s.reqs   = [ InPort ( mk_bits( n ) ) for _, n, _ in spec ]
+    maxn = max( n for _, n, _, _ in spec )
+    s.reqs   = [ InPort ( mk_bits( n ) ) for _, n, _, _ in spec ]
     s.en     = [ InPort () for _ in spec ]
-    s.grants = [ OutPort( mk_bits( n ) ) for _, n, _ in spec ]
+    s.grants = [ OutPort( mk_bits( n ) ) for _, n, _, _ in spec ]
     s.data   = [ InPort ( Bits8 ) for _ in range( maxn ) ]
     s.out    = [ OutPort( Bits8 ) for _ in spec ]
-    s.arbs   = [ ( RoundRobinArbiterEn if h else RoundRobinArbiter )( n ) for h, n, _ in spec ]
-    s.muxes  = [ C19GrantMux( n ) for _, n, x in spec if x ]
+    s.arbs   = [ C19GrantMonitor( h, n, w ) if w else ( RoundRobinArbiterEn if h else RoundRobinArbiter )( n )
+                 for h, n, _, w in spec ]
+    s.muxes  = [ C19GrantMux( n ) for _, n, x, _ in spec if x ]
     k = 0
-    for j, ( h, n, x ) in enumerate( spec ):
+    for j, ( h, n, x, w ) in enumerate( spec ):
       s.arbs[j].reqs   //= s.reqs[j]
       s.arbs[j].grants //= s.grants[j]
-      if h: s.arbs[j].en //= s.en[j]
+      if h or w: s.arbs[j].en //= s.en[j]
       if x:
-        s.muxes[k].sel //= s.arbs[j].grants
+        s.muxes[k].sel //= s.grants[j]
         for i in range( n ): s.muxes[k].in_[i] //= s.data[i]
         s.muxes[k].out //= s.out[j]
         k += 1
@@ -321,10 +367,17 @@ def top_module(workdir):
     _top_mod[0] = importlib.import_module(name)
   return _top_mod[0]
 
-def build_top(workdir, spec, flow):
+def inner_arbiter(a):
+  """the arbiter inside (possibly nested) C19GrantMonitor wrappers"""
+  while not hasattr(a, 'priority_reg') and hasattr(a, 'arb'): a = a.arb
+  return a
+
+def build_top(workdir, spec, flow, alone=None):
+  """the many-arbiter top for `spec`, or (alone = (has_en, n, wrap)) one C19GrantMonitor as the top itself"""
   from pymtl3.passes.PassGroups import SimpleSimPass
   from pymtl3.passes.mamba.PassGroups import HeuTopoUnrollSim, Mamba2020, UnrollSim
-  top = top_module(workdir).C19ManyArbTop([tuple(x) for x in spec])
+  if alone is not None: top = top_module(workdir).C19GrantMonitor(alone[0], alone[1], tuple(alone[2]))
+  else: top = top_module(workdir).C19ManyArbTop([(h, n, x, tuple(w)) for h, n, x, w in spec])
   top.elaborate()
   if flow == 'default': top.apply(DefaultPassGroup())
   elif flow == 'simplesim': top.apply(SimpleSimPass())
@@ -334,6 +387,10 @@ def build_top(workdir, spec, flow):
   else: raise ValueError(flow)
   return top
 
+def rand_wrap(rng):
+  """register counts of the wrapper levels around an arbiter, outermost first"""
+  return [rng.choice([0, 1, 2, 2, 3]) for _ in range(rng.choice([1, 1, 2]))]
+
 def gen_many(rng, quick):
   """spec + one global reset stream + independent (en, reqs) streams + data words"""
   k = rng.randint(7, 16) if rng.random() < 0.85 else rng.randint(2, 6)
@@ -342,7 +399,7 @@ def gen_many(rng, quick):
   for j in range(k):
     h = rng.randint(0, 1)
     n = 1 if (h in N1_OK and rng.random() < 0.15) else rng.choice(sizes)
-    spec.append([h, n, int(rng.random() < 0.4)])
+    spec.append([h, n, int(rng.random() < 0.4), rand_wrap(rng) if (n > 1 and rng.random() < 0.45) else []])
   length = rng.randint(50, 80) if quick else rng.randint(80, 200)
   resets = [0] * length
   start = rng.choice([0, 0, 0, rng.randint(1, 4)])        # sometimes traffic before the first reset
@@ -351,10 +408,10 @@ def gen_many(rng, quick):
     t = rng.randint(length // 4, length - 5)
     for u in range(t, min(length, t + rng.randint(1, 2))): resets[u] = 1
   streams = []
-  for h, n, _ in spec:
+  for h, n, _, _ in spec:
     hist = random_history(rng, h, n, length + 8)[-length:]
     streams.append([[c[1], c[2]] for c in hist])
-  data = [[rng.getrandbits(8) for _ in range(max(n for _, n, _ in spec))] for _ in range(length)]
+  data = [[rng.getrandbits(8) for _ in range(max(n for _, n, _, _ in spec))] for _ in range(length)]
   return {'spec': spec, 'resets': resets, 'streams': streams, 'data': data}
 
 def run_many_real(workdir, many, flow):
@@ -366,13 +423,13 @@ def run_many_real(workdir, many, flow):
   for t, r in enumerate(resets):
     top.reset @= r
     for i, d in enumerate(data[t]): top.data[i] @= d
-    for j, (h, n, x) in enumerate(spec):
+    for j, (h, n, x, w) in enumerate(spec):
       top.reqs[j] @= streams[j][t][1]
-      if h: top.en[j] @= streams[j][t][0]
+      if h or w: top.en[j] @= streams[j][t][0]
     top.sim_eval_combinational()
     cur = []
-    for j, (h, n, x) in enumerate(spec):
-      a = top.arbs[j]
+    for j, (h, n, x, w) in enumerate(spec):
+      a = inner_arbiter(top.arbs[j])
       g = int(top.grants[j])
       if hasattr(a, 'priority_reg'): cur.append([int(a.priority_reg.out), g, int(a.priority_en)])
       else: cur.append([1, g, int(g != 0 and (not h or streams[j][t][0]))])     # one requester, no register: pointer trivial
@@ -381,8 +438,8 @@ def run_many_real(workdir, many, flow):
         if g and not g & (g - 1) and int(top.out[j]) != want:
           muxbad.append((j, t, f'mux out={int(top.out[j])} for grants={g:#b}, data={data[t][:n]}'))
     top.sim_tick()
-    for j, (h, n, x) in enumerate(spec):
-      a = top.arbs[j]
+    for j, (h, n, x, w) in enumerate(spec):
+      a = inner_arbiter(top.arbs[j])
       cur[j].append(int(a.priority_reg.out) if hasattr(a, 'priority_reg') else 1)
       rows[j].append(cur[j])
   return rows, muxbad
@@ -394,13 +451,14 @@ def many_arbiters(ck, ntops):
     many = gen_many(rng, ck.tier == 'quick')
     spec = many['spec']
     hists = [[[r, e, q] for r, (e, q) in zip(many['resets'], st)] for st in many['streams']]
-    s0 = [1 if (n == 1) else 0 for _, n, _ in spec]     # a register-less one-requester arbiter: pointer trivially at input 0
-    replies = ck.drv('arb').batch([model_line(h, n, hist, s0=z) for (h, n, _), hist, z in zip(spec, hists, s0)])
+    s0 = [1 if (n == 1) else 0 for _, n, _, _ in spec]     # a register-less one-requester arbiter: pointer trivially at input 0
+    replies = ck.drv('arb').batch([model_line(h, n, hist, s0=z) for (h, n, _, _), hist, z in zip(spec, hists, s0)])
     models = [parse_trace(r) for r in replies]
     ck.hist('many: arbiters per top', len(spec))
     for flow in FLOWS:
       rows, muxbad = run_many_real(ck.workdir, many, flow)
-      for j, (h, n, x) in enumerate(spec):
+      for j, (h, n, x, w) in enumerate(spec):
+        ck.hist('wrapper registers (outermost first)', str(w) if w else 'bare', len(hists[j]))
         ctx = {'flow': flow, 'index': j, 'spec': spec, 'resets': many['resets'], 'streams': many['streams'], 'data': many['data']}
         ck.hist('variant', VARIANT[h], len(hists[j])); ck.hist('nreqs', n, len(hists[j])); ck.hist('part', 'many:' + flow, len(hists[j]))
         model = models[j]
@@ -414,6 +472,39 @@ def many_arbiters(ck, ntops):
                         {'hasEn': spec[j][0], 'n': spec[j][1], 'hist': hists[j][:t + 1],
                          'many': {'flow': flow, 'index': j, 'spec': spec, 'resets': many['resets'], 'streams': many['streams'], 'data': many['data']}},
                         'out = data[granted input]', text)
+  return cycles
+
+def run_wrapped_real(workdir, has_en, n, wrap, hist, flow):
+  """one C19GrantMonitor (wrap = register counts per level) as the top of the design"""
+  top = build_top(workdir, None, flow, alone=(has_en, n, wrap))
+  a = inner_arbiter(top)
+  out = []
+  for r, e, q in hist:
+    top.reset @= r
+    top.reqs @= q
+    top.en @= e
+    top.sim_eval_combinational()
+    row = [int(a.priority_reg.out), int(top.grants), int(a.priority_en)]
+    top.sim_tick()
+    row.append(int(a.priority_reg.out))
+    out.append(row)
+  return out
+
+def wrapped_alone(ck, shapes, length):
+  """arbiters inside GrantMonitor-style parents with 0-3 registers of their own, 1-2 levels, as the whole design"""
+  rng = ck.rng
+  cycles = 0
+  for wrap in shapes:
+    has_en = rng.randint(0, 1)
+    n = rng.choice([2, 3, 4, 5, 8])
+    hist = random_history(rng, has_en, n, length)
+    model = parse_trace(ck.drv('arb').batch([model_line(has_en, n, hist)])[0])
+    for flow in FLOWS:
+      impl = run_wrapped_real(ck.workdir, has_en, n, wrap, hist, flow)
+      ck.hist('variant', VARIANT[has_en], len(hist)); ck.hist('nreqs', n, len(hist)); ck.hist('part', 'wrapped:' + flow, len(hist))
+      ck.hist('wrapper registers (outermost first)', str(wrap), len(hist))
+      evaluate(ck, has_en, n, hist, model, impl, 'wrapped:' + flow, None, {'flow': flow, 'wrap': wrap})
+      cycles += len(hist)
   return cycles
 
 def exhaustive(ck, nmax, factory=make):
@@ -458,6 +549,10 @@ def run(ck, factory=make):
   process(ck, [(h, n, random_history(rng, h, n, 60)) for h, n, _ in first], 'random', factory)
   situations = exhaustive(ck, nmax, factory)
   degenerate(ck, factory, 'after larger sizes')
+  shapes = [[0], [1], [2], [3], [0, 2], [2, 0], [1, 3]] if quick else [[a] for a in range(4)] + [[a, b] for a in range(4) for b in range(4)] + [[2, 0, 3], [0, 0, 2]]
+  wc = wrapped_alone(ck, shapes, 40 if quick else 120)
+  ck.extra_cov['wrapped_part'] = (f'arbiter inside C19GrantMonitor wrappers (register counts per level, outermost first) {shapes} as the whole '
+                                  f'design, under {FLOWS}: {wc} cycles')
   ntops = 3 if quick else 12
   mc = many_arbiters(ck, ntops)
   ck.extra_cov['many_arbiters_part'] = (f'{ntops} generated tops (mostly 7-16 arbiters of both variants, mixed nreqs, some grants feeding a mux), '
@@ -498,7 +593,11 @@ def replay(ck, data):
     # the arbiter sits in a generated top with other arbiters: rebuild the whole top under the same pass group
     rows, _ = run_many_real(ck.workdir, many, many['flow'])
     impl = rows[many['index']][:len(hist)]
-    print(f"arbiter #{many['index']} of a top with {len(many['spec'])} arbiters (spec [hasEn, nreqs, mux]: {many['spec']}), pass group {many['flow']}")
+    print(f"arbiter #{many['index']} of a top with {len(many['spec'])} arbiters (spec [hasEn, nreqs, mux, wrapper registers]: {many['spec']}), pass group {many['flow']}")
+  elif c.get('wrapped'):
+    w = c['wrapped']
+    impl = run_wrapped_real(ck.workdir, has_en, n, w['wrap'], hist, w['flow'])
+    print(f"arbiter inside C19GrantMonitor wrappers with {w['wrap']} own registers per level (outermost first), pass group {w['flow']}")
   else:
     impl = run_real(has_en, n, hist)
   orc = Oracle(has_en, n)
